@@ -53,10 +53,11 @@ package compile
 //@   ensures c.filter == old(c.filter)
 //@   loop 0 invariant c.filter == old(c.filter) && forall(k, 0, len(children), old(c.filter) == nil || apply_filter(old(c.filter), children[k]))
 //@   loop 1 invariant c.filter == old(c.filter) && forall(k, 0, len(children), old(c.filter) == nil || apply_filter(old(c.filter), children[k]))
+// error reports a compile error by panicking (caught by Compiler.recover): it never returns.
 //@ func (*Compiler).error
-//@   assumed
 //@   modifies *
 //@   preserves c.filter
+//@   ensures false
 //@ func (*Compiler).buildListChildren
 //@   requires c != nil
 //@   modifies *
@@ -65,3 +66,45 @@ package compile
 //@   loop 0 invariant c.filter == old(c.filter) && forall(k, 0, len(children), old(c.filter) == nil || apply_filter(old(c.filter), children[k]))
 //@   loop 1 invariant c.filter == old(c.filter) && forall(k, 0, len(children), old(c.filter) == nil || apply_filter(old(c.filter), children[k]))
 //@   loop 2 invariant c.filter == old(c.filter) && forall(k, 0, len(children), old(c.filter) == nil || apply_filter(old(c.filter), children[k]))
+
+// ---------------------------------------------------------------------------
+// Inherited properties (C14). RFC 6020 7.19.1: config defaults to the parent's value and config true
+// is not allowed under config false. 7.19.2: status defaults to the parent's; a current definition may
+// not be under a deprecated/obsolete one, nor a deprecated one under an obsolete one.
+
+//@ func parseStatus
+//@   requires statusStatement != nil
+//@   ensures implies(node_argstatus(statusStatement) == "current", result == schema.Current)
+//@   ensures implies(node_argstatus(statusStatement) == "deprecated", result == schema.Deprecated)
+//@   ensures implies(node_argstatus(statusStatement) == "obsolete", result == schema.Obsolete)
+//@   ensures node_argstatus(statusStatement) == "current" || node_argstatus(statusStatement) == "deprecated" || node_argstatus(statusStatement) == "obsolete"
+
+//@ func (*Compiler).getStatus
+//@   requires c != nil && node != nil
+//@   modifies *
+//@   ensures implies(node_child_by_type(node, parse.NodeStatus) == nil, result == inheritedStatus)
+//@   ensures implies(node_child_by_type(node, parse.NodeStatus) != nil, result >= inheritedStatus &&
+//@           iff(result == schema.Current, node_argstatus(node_child_by_type(node, parse.NodeStatus)) == "current") &&
+//@           iff(result == schema.Deprecated, node_argstatus(node_child_by_type(node, parse.NodeStatus)) == "deprecated") &&
+//@           iff(result == schema.Obsolete, node_argstatus(node_child_by_type(node, parse.NodeStatus)) == "obsolete"))
+
+//@ func (*Compiler).getConfig
+//@   requires c != nil && node != nil
+//@   modifies *
+//@   ensures implies(node_child_by_type(node, parse.NodeConfig) == nil, result == inheritedConfig)
+//@   ensures implies(node_child_by_type(node, parse.NodeConfig) != nil, result == node_argbool(node_child_by_type(node, parse.NodeConfig)) && implies(result, inheritedConfig))
+
+// Defaults (C13): the nearest definition that gives one wins.
+//@ func (*Compiler).getDefault
+//@   ensures implies(base == nil || hasDef, result0 == def && result1 == hasDef)
+//@   ensures implies(base != nil && !hasDef, result0 == type_default(base) && result1 == type_hasdefault(base))
+
+// Range restrictions (C13): a set of ranges that is returned normally is ordered and disjoint:
+// every range has start <= end, starts ascend, and each range begins after the previous one ends.
+//@ func (*Compiler).validateRangeBoundaries
+//@   requires comp != nil && ranges != nil && rb_len(ranges) >= 1
+//@   modifies *
+//@   ensures forall(k, 0, rb_len(ranges), !rb_lt(ranges, rb_end(ranges, k), rb_start(ranges, k)))
+//@   ensures forall(k, 1, rb_len(ranges), !rb_gt(ranges, rb_start(ranges, k-1), rb_start(ranges, k)) && rb_lt(ranges, rb_end(ranges, k-1), rb_start(ranges, k)))
+//@   loop 0 invariant 1 <= i && forall(k, 0, i, !rb_lt(ranges, rb_end(ranges, k), rb_start(ranges, k)))
+//@   loop 0 invariant forall(k, 1, i, !rb_gt(ranges, rb_start(ranges, k-1), rb_start(ranges, k)) && rb_lt(ranges, rb_end(ranges, k-1), rb_start(ranges, k)))
